@@ -139,6 +139,51 @@ def lf_check(case):
     return Res(list(seen.items()), o=(layout, ns % RATIO == 0), tr=ntr)
 
 
+def offset_cases(tier, seed):
+    return [(off, n) for off in (0, 12, 600, 1201) for n in (1200, 1811)]
+
+
+def offset_check(case):
+    """NP2.1: extracting the LFP of a sub-range [offset, offset + n) equals extracting it from a recording cut to that range"""
+    import inspect
+    import neuropixel
+    off, n = case
+    if "offset" not in inspect.signature(neuropixel.NP2Converter._process_NP21).parameters:
+        return Res([], o="skipped", nt=False, tr=0)
+    root = os.path.join(synth.proc_scratch(), "c12o")
+    total = off + n + 50
+    data = np2.content(total, 5, "broadband", seed=SEED[0] + total)
+    sites = np2.sites_for([0, 0, 0, 0])
+    outs = []
+    for variant in ("sub-range", "cut"):
+        np2.clean(root)
+        dd = data if variant == "sub-range" else data[off:off + n]
+        ap = np2.make_session(root, "NP2.1", sites, dd)
+        conv = neuropixel.NP2Converter(ap, post_check=True, compress=False)
+        try:
+            if variant == "sub-range":
+                conv.init_params(nsamples=n, nwindow=600)
+                conv._process_NP21(offset=off)
+            else:
+                conv.init_params(nwindow=600)
+                conv.process()
+        finally:
+            conv.sr.close()
+        f = os.path.join(root, np2.LABEL, np2.STEM + ".lf.bin")
+        outs.append(np.fromfile(f, dtype=np.int16).reshape(-1, 5))
+    v = []
+    a, b = outs
+    if a.shape != b.shape:
+        v.append(("lf:sub-range:length", "offset=%d n=%d: %d LF samples, the cut recording gives %d" % (off, n, a.shape[0], b.shape[0])))
+    else:
+        if not np.array_equal(a[:, -1], data[off:off + n:RATIO, -1]):
+            v.append(("lf:sub-range:sync", "offset=%d n=%d: the LF sync column is not every 12th sync word of the AP samples the LFP was derived from" % (off, n)))
+        if np.max(np.abs(a[:, :-1].astype(int) - b[:, :-1].astype(int))) > 1:
+            v.append(("lf:sub-range:values", "offset=%d n=%d: the LFP of the sub-range differs from the LFP of the cut recording" % (off, n)))
+    shutil.rmtree(root, ignore_errors=True)
+    return Res(v, o=(off > 0,), tr=2)
+
+
 CHECK = {
     "property": "C12",
     "rule": "one case per (layout, recording length); inside it five processing-window sizes (588, 600, 648, 1200, longer than the file); lengths: every ns within 14 samples of "
@@ -150,5 +195,6 @@ CHECK = {
     ],
     "clauses": [
         Clause("lfp", "LF length, sync, window independence, whole-trace equality, metadata", cases=lf_cases, check=lf_check, setup=_setup),
+        Clause("sub-range", "LFP of a sub-range through the offset entry point = LFP of the cut recording", cases=offset_cases, check=offset_check, setup=_setup),
     ],
 }
